@@ -34,6 +34,20 @@ import (
 	"golang.org/x/tools/go/packages"
 )
 
+// ExpandedRanges: source ranges of helper bodies that were expanded into their callers (instructions positioned there
+// are copies; a value such a copy computes may be unused by this particular caller).
+var ExpandedRanges [][2]token.Pos
+
+// InExpandedHelper reports whether pos lies in the body of a helper that was expanded at its call sites.
+func InExpandedHelper(pos token.Pos) bool {
+	for _, r := range ExpandedRanges {
+		if pos >= r[0] && pos < r[1] {
+			return true
+		}
+	}
+	return false
+}
+
 // InlineLog records what the normalisation did (shown in the evidence notes).
 var InlineLog []string
 
@@ -874,6 +888,28 @@ func (in *inliner) rewriteStmt(st ast.Stmt, fd *ast.FuncDecl, file *ast.File, c 
 			blk := &ast.BlockStmt{Lbrace: s.Pos(), List: []ast.Stmt{init, s}, Rbrace: s.End()}
 			return []ast.Stmt{blk}, true // the next round expands the call inside the new block
 		}
+		// `if a && h(x) {T} else {E}`  =>  `if a { if h(x) {T} else {E} } else {E}`  (and the mirror image for ||): the
+		// helper is called under exactly the same condition, and its call becomes the whole condition of an `if`
+		if be, ok := s.Cond.(*ast.BinaryExpr); ok && s.Init == nil && (be.Op == token.LAND || be.Op == token.LOR) &&
+			in.containsCallTo(be.Y, c) != nil && in.containsCallTo(be.X, c) == nil {
+			dupOK := func(n ast.Node) bool {
+				return n == nil || reflect.ValueOf(n).IsNil() || !containsFuncLit(n) && !containsLabel(n)
+			}
+			if be.Op == token.LAND && dupOK(s.Else) {
+				inner := &ast.IfStmt{If: be.Y.Pos(), Cond: be.Y, Body: s.Body, Else: s.Else}
+				var outerElse ast.Stmt
+				if s.Else != nil {
+					outerElse = copyNode(s.Else, nil, in.info).(ast.Stmt)
+				}
+				outer := &ast.IfStmt{If: s.If, Cond: be.X, Body: &ast.BlockStmt{Lbrace: s.Body.Lbrace, List: []ast.Stmt{inner}, Rbrace: s.Body.Rbrace}, Else: outerElse}
+				return []ast.Stmt{outer}, true
+			}
+			if be.Op == token.LOR && dupOK(s.Body) {
+				inner := &ast.IfStmt{If: be.Y.Pos(), Cond: be.Y, Body: copyNode(s.Body, nil, in.info).(*ast.BlockStmt), Else: s.Else}
+				outer := &ast.IfStmt{If: s.If, Cond: be.X, Body: s.Body, Else: &ast.BlockStmt{Lbrace: s.Body.Lbrace, List: []ast.Stmt{inner}, Rbrace: s.Body.Rbrace}}
+				return []ast.Stmt{outer}, true
+			}
+		}
 		if s.Cond != nil && in.containsCallTo(s.Cond, c) != nil {
 			if s.Init != nil {
 				init := s.Init
@@ -1368,6 +1404,7 @@ func (in *inliner) expandT(ce *ast.CallExpr, assign *ast.AssignStmt, tok token.T
 			ren[o] = o.Name() + tag
 		}
 	}
+	ExpandedRanges = append(ExpandedRanges, [2]token.Pos{ob.Pos(), ob.End()})
 	// labels inside the body are the ones earlier expansions introduced: each copy gets its own
 	copyLabelSuffix = tag
 	body := copyNode(ob, ren, in.info).(*ast.BlockStmt)
